@@ -1,35 +1,10 @@
 package preprocessor
 
 import (
-	"context"
-	"fmt"
-	"reflect"
-
+	"github.com/internetarchive/Zeno/internal/pkg/veriflib"
 	"github.com/internetarchive/Zeno/pkg/models"
 )
 
-// verifPreprocess calls the stage's preprocess() whatever its exact parameter list is: the harness depends on what the
-// function does to the seed's tree, not on its (private) signature. Known parameter kinds are filled in - a context that
-// is never cancelled, the worker id, the seed; anything else gets its zero value.
-func verifPreprocess(workerID string, seed *models.Item) {
-	fn := reflect.ValueOf(preprocess)
-	ft := fn.Type()
-	args := make([]reflect.Value, ft.NumIn())
-	ctxType := reflect.TypeOf((*context.Context)(nil)).Elem()
-	for i := range args {
-		switch in := ft.In(i); {
-		case in == reflect.TypeOf(seed):
-			args[i] = reflect.ValueOf(seed)
-		case in.Kind() == reflect.String:
-			args[i] = reflect.ValueOf(workerID).Convert(in)
-		case in.Kind() == reflect.Interface && ctxType.Implements(in):
-			args[i] = reflect.ValueOf(context.Background()).Convert(in)
-		default:
-			args[i] = reflect.Zero(in)
-		}
-	}
-	if ft.IsVariadic() {
-		panic(fmt.Sprintf("verif harness: preprocess() became variadic: %s", ft))
-	}
-	fn.Call(args)
-}
+// verifPreprocess calls the stage's preprocess() whatever its exact parameter list is (see veriflib.Call): the harness
+// depends on what the function does to the seed's tree, not on its private signature.
+func verifPreprocess(workerID string, seed *models.Item) { veriflib.Call(preprocess, workerID, seed) }
